@@ -334,6 +334,10 @@ var c07Snap = Register(Prop[c07Case]{
 		return c
 	},
 	Run: runC07,
+	Minimize: func(c c07Case, stillFails func(c07Case) bool) c07Case {
+		c.Script = minimizeScript(c.Script, func(s *Script) bool { cc := c; cc.Script = s; return stillFails(cc) })
+		return c
+	},
 	Render: func(c c07Case) any {
 		return map[string]any{"files": renderCanonical(c.Script), "choices": c.Choices, "snapshot_after_calls": c.K, "receiver": c.Receiver, "receiver_choices": c.RChoices, "continuation_choices": c.Cont}
 	},
